@@ -41,7 +41,7 @@ func runC15(c *Ctx, idx int, o *Obs) {
 			shape = "random"
 		}
 		op := gen.Opts{N: n, Shape: shape, RootDeg: rootDeg,
-			MultiP: gen.Pick(r, 0.0, 0.3), Lens: gen.Pick(r, "all", "all", "mixed", "none"), LenCls: gen.Pick(r, "len", "tie"),
+			MultiP: gen.Pick(r, 0.0, 0.3), Lens: gen.Pick(r, "all", "all", "mixed", "none"), LenCls: gen.Pick(r, "len", "tie", "neg"),
 			SupP: gen.Pick(r, 0.0, 0.5), SupCls: "unit", InnerNameP: gen.Pick(r, 0.0, 0.3), SingleP: singles}
 		if comments {
 			op.NodeComP, op.EdgeComP, op.RootNameP = 0.4, 0.5, 0.3
@@ -252,7 +252,28 @@ func runC15(c *Ctx, idx int, o *Obs) {
 		nn := len(t0.Nodes())
 		for _, k := range r.Perm(nn)[:min(nn, 12)] {
 			t := mustParse(text)
-			nd := t.Nodes()[k]
+			prior := ""
+			switch r.Intn(4) {
+			case 1: // the tree object has been re-rooted before (the parent is no longer the first neighbour everywhere)
+				if in := innerNodes(t); len(in) > 0 && !hasSingles(t) && !t.Rooted() { // re-rooting a rooted tree leaves a single-child node behind
+					if err := t.Reroot(in[r.Intn(len(in))]); err == nil {
+						prior = "Reroot; "
+					}
+				}
+			case 2: // a tree was grafted on one of its tips before
+				if err := t.UpdateTipIndex(); err == nil {
+					tn := tipNames(t)
+					g := gen.Tree(r, gen.Opts{N: 3 + r.Intn(3), Shape: "random", RootDeg: 2, Lens: "all", LenCls: "tie"})
+					for j, m := range modelTips(g) {
+						m.Name = fmt.Sprintf("grafted%d", j)
+					}
+					if err := t.GraftTreeOnTip(tn[r.Intn(len(tn))], mon.Build(g)); err == nil {
+						prior = "GraftTreeOnTip; "
+					}
+				}
+			}
+			nodes := t.Nodes()
+			nd := nodes[k%len(nodes)]
 			if nd.Tip() || nd == t.Root() {
 				continue
 			}
@@ -262,7 +283,7 @@ func runC15(c *Ctx, idx int, o *Obs) {
 			before := t.Newick()
 			st := t.SubTree(nd)
 			o.Ev("SubTree", 1)
-			inp := fmt.Sprintf("%s ; SubTree(node above {%s})", text, short(sortedCopy(below)))
+			inp := fmt.Sprintf("%s ; %sSubTree(node above {%s})", text, prior, short(sortedCopy(below)))
 			if !checkStructure(o, st, inp) {
 				continue
 			}
